@@ -43,6 +43,31 @@ func cmdBuiltins(args []string) {
 	seed := fs.Int64("seed", 1, "")
 	fs.Parse(args)
 	em := NewEmitter(*out)
+	for pass := 0; pass < 2; pass++ {
+		if pass == 1 {
+			// the second pass reads every built-in again AFTER many other recipes were used in this process
+			// (a process-wide memo keyed too coarsely would now answer for the wrong recipe)
+			for a := 0; a < 32; a++ {
+				for rq := 0; rq < 32; rq++ {
+					for _, x := range []int{0, 16, 4, 31} {
+						r := spg.CharRecipe{Length: 3, Allow: spg.CTFlag(a), Require: spg.CTFlag(rq), Exclude: spg.CTFlag(x)}
+						_ = r.Alphabet()
+						if a%8 == 7 && rq%4 == 1 {
+							_ = r.Entropy()
+							r.Generate()
+						}
+					}
+				}
+			}
+		}
+		emitBuiltins(em, *repo, *seed, pass)
+	}
+	em.Close()
+	fmt.Printf("{\"events\":%d}\n", em.N)
+}
+
+func emitBuiltins(em *Emitter, repoDir string, seedv int64, pass int) {
+	repo, seed := &repoDir, &seedv
 	em.Emit(map[string]interface{}{"op": "consts", "Uppers": int(spg.Uppers), "Lowers": int(spg.Lowers), "Digits": int(spg.Digits), "Symbols": int(spg.Symbols),
 		"Ambiguous": int(spg.Ambiguous), "None": int(spg.None), "Letters": int(spg.Letters), "All": int(spg.All),
 		"SeparatorType": int(spg.SeparatorType), "AtomType": int(spg.AtomType),
@@ -135,7 +160,10 @@ func cmdBuiltins(args []string) {
 		}
 		em.Emit(map[string]interface{}{"op": "preset", "name": name, "den": int(den.Int64()), "complete": b2i(complete), "leaves": len(leaves), "vals": vs})
 	}
-	// shipped lists against their data files, in chunks
+	// shipped lists against their data files, in chunks (first pass only)
+	if pass > 0 {
+		return
+	}
 	for _, l := range []struct {
 		name string
 		emb  []string
@@ -171,6 +199,4 @@ func cmdBuiltins(args []string) {
 		}
 		em.Emit(map[string]interface{}{"op": "listend", "name": l.name, "n": len(l.emb), "fileLines": len(lines)})
 	}
-	em.Close()
-	fmt.Printf("{\"events\":%d}\n", em.N)
 }
